@@ -2,6 +2,7 @@
 package main
 
 import (
+	"sync/atomic"
 	"fmt"
 	"go/types"
 	"regexp"
@@ -354,11 +355,14 @@ func (e *Engine) zero(t types.Type) Val {
 type Heap struct {
 	m     map[string]string
 	dirty map[string]bool // component was written or havoced since function entry
-	pendH map[string]bool // havoced before first use (name or prefix*): first use must not see the entry contents
-	all   bool            // everything was havoced at some point
+	pendH map[string]int // havoced before first use (name or prefix*), by havoc event: first use must not see the entry contents
+	all   int            // everything was havoced at some point (event id)
 }
 
-func newHeap() *Heap { return &Heap{m: map[string]string{}, dirty: map[string]bool{}, pendH: map[string]bool{}} }
+// pendSeq numbers havoc events, so that every copy of a heap names the not-yet-used result of one havoc identically.
+var pendSeq int64
+
+func newHeap() *Heap { return &Heap{m: map[string]string{}, dirty: map[string]bool{}, pendH: map[string]int{}} }
 
 func (h *Heap) clone() *Heap {
 	n := newHeap()
@@ -375,18 +379,29 @@ func (h *Heap) clone() *Heap {
 	return n
 }
 
-func (h *Heap) pend(k string) { h.pendH[k] = true }
+func (h *Heap) pend(k string) { h.pendH[k] = int(atomic.AddInt64(&pendSeq, 1)) }
 
-func (h *Heap) pending(name string) bool {
-	if h.all || h.pendH[name] {
-		return true
+func (h *Heap) pendAll() { h.all = int(atomic.AddInt64(&pendSeq, 1)) }
+
+func (h *Heap) pending(name string) bool { return h.pendingID(name) > 0 }
+
+// pendingID: the latest havoc event covering the component (0 if none).
+func (h *Heap) pendingID(name string) int {
+	id := h.all
+	if v := h.pendH[name]; v > id {
+		id = v
 	}
-	for k := range h.pendH {
-		if strings.HasSuffix(k, "*") && strings.HasPrefix(name, strings.TrimSuffix(k, "*")) {
-			return true
+	for k, v := range h.pendH {
+		if v > id && strings.HasSuffix(k, "*") && strings.HasPrefix(name, strings.TrimSuffix(k, "*")) {
+			id = v
 		}
 	}
-	return false
+	return id
+}
+
+// pendSym names the contents a pending havoc left in a component: the same symbol in every copy of the heap.
+func (e *Engine) pendSym(h *Heap, name, sort string) string {
+	return e.global(fmt.Sprintf("Hv.%s@%d", name, h.pendingID(name)), sort)
 }
 
 // comp returns the current array term of a component, creating its initial version on first use.
@@ -404,7 +419,7 @@ func (e *Engine) comp(h *Heap, name, elemSort string, two bool) string {
 	e.comps[name] = full
 	var nm string
 	if h.pending(name) {
-		nm = e.fresh("Hv."+name, full)
+		nm = e.pendSym(h, name, full)
 		h.dirty[name] = true
 	} else {
 		nm = e.initial(name)
@@ -908,12 +923,12 @@ func (e *Engine) mergeHeaps(conds []string, hs []*Heap) *Heap {
 			}
 		}
 		for k, v := range h.pendH {
-			if v {
-				out.pendH[k] = true
+			if v > out.pendH[k] {
+				out.pendH[k] = v
 			}
 		}
-		if h.all {
-			out.all = true
+		if h.all > out.all {
+			out.all = h.all
 		}
 	}
 	var ks []string
@@ -928,7 +943,7 @@ func (e *Engine) mergeHeaps(conds []string, hs []*Heap) *Heap {
 			v, ok := h.m[k]
 			if !ok {
 				if h.pending(k) {
-					v = e.fresh("Hv."+k, e.comps[k])
+					v = e.pendSym(h, k, e.comps[k])
 				} else {
 					v = e.initial(k)
 				}
